@@ -100,8 +100,8 @@ func (r *c05Reader) Read(p []byte) (int, error) {
 	if len(p) == 0 {
 		return 0, nil
 	}
-	if r.zero > 0 && r.calls%3 == 0 {
-		r.zero--
+	if r.zero > 0 && (r.calls%3 == 0 || r.zero > 50) {
+		r.zero-- // ZeroN > 50: a long uninterrupted run of empty reads in front of the data
 		return 0, nil
 	}
 	if r.s.ErrAt >= 0 && r.pos >= r.s.ErrAt && !(r.s.ErrOnce && r.sentAt >= 0) {
@@ -461,6 +461,15 @@ func c05Run(c *fw.Ctx, b fw.Batch) {
 			}
 		}
 	case "reader-zoo":
+		// a conforming reader may return (0, nil) any number of times before it delivers
+		for _, x := range [][]byte{[]byte("\x89PNG\x0d\x0a\x1a\x0a\x00\x00\x00\x0dIHDR"), []byte(`{"type":"Feature","k":[1,2,3]}`), []byte("plain text"), {}} {
+			for _, zn := range []int{60, 99, 100, 101, 150, 1000} {
+				for _, lim := range []uint32{0, 3072, uint32(len(x)), 4} {
+					c05JudgeReader(c, "zero-run", x, lim, lim, c05Sched{Chunk: 7, ZeroN: zn, ErrAt: -1, SetLimitTo: -1})
+					c.Count("long_runs_of_empty_reads", 1)
+				}
+			}
+		}
 		// concrete reader types of the standard library (a fast path keyed on the
 		// dynamic type must behave like the generic path)
 		pr, pw, _ := os.Pipe()
@@ -746,6 +755,8 @@ func c05Paths(c *fw.Ctx, dir string) {
 	must(os.WriteFile(filepath.Join(root, "d", "trail "), png, 0o600))
 	must(os.WriteFile(filepath.Join(root, "d", "new\nline"), txt, 0o600))
 	must(os.WriteFile(filepath.Join(root, "d", "ünï"), png, 0o600))
+	os.WriteFile(filepath.Join(root, "d", "latin1-\xe9t\xe9.png"), png, 0o600) // file names are bytes, not UTF-8
+	os.WriteFile(filepath.Join(root, "d", "cut-\xe2\x82"), pdf, 0o600)
 	must(os.WriteFile(filepath.Join(root, "d", strings.Repeat("n", 250)), pdf, 0o600))
 	if os.Symlink(filepath.Join("store", "2024"), filepath.Join(root, "current")) != nil {
 		c.Count("path_cases_skipped_no_symlink", 1)
@@ -767,6 +778,8 @@ func c05Paths(c *fw.Ctx, dir string) {
 		root + sep + "d" + sep + "trail ",
 		root + sep + "d" + sep + "new\nline",
 		root + sep + "d" + sep + "ünï",
+		root + sep + "d" + sep + "latin1-\xe9t\xe9.png",
+		root + sep + "d" + sep + "cut-\xe2\x82",
 		root + sep + "d" + sep + strings.Repeat("n", 250),
 		root + sep + "d" + sep + strings.Repeat("n", 300), // ENAMETOOLONG
 		root + sep + "d" + sep + "link-to-f",
